@@ -396,3 +396,16 @@ Theorem c01_unless_is_if_not : forall g ld f cond conseq alts els c b,
   = render g ld (S (S f)) (NIf (ENot cond) conseq alts els) c b.
 Proof. exact unless_is_if_not. Qed.
 Print Assumptions c01_unless_is_if_not.
+
+(** include shares the caller's context: after `{% include 'p' %}` with p =
+    `{% assign x = v %}` the caller has [x] bound to [v] as a local and everything
+    else exactly as before (contrast: c07_render_writes_nothing_back). *)
+Theorem c01_include_assign_is_visible_after : forall g ld f tn x v c b,
+  mem_str s_include (disabled c) = false ->
+  assoc tn ld = Some [NAssign x (ELit v)] ->
+  has_forloop v = false ->
+  (depth_limit g <? scope_size c + 1)%Z = false ->
+  render g ld (S (S (S f))) (NInclude (ELit (VStr tn)) None []) c b
+  = mk SDone (set_locals c (dict_set x v (locals c))) b.
+Proof. exact include_assign_is_visible_after. Qed.
+Print Assumptions c01_include_assign_is_visible_after.
